@@ -432,7 +432,8 @@ impl Ctx {
         }
         let _ = std::fs::write(dir.join(format!("{:016x}.msg.txt", h)), &fail.msg);
         println!("VIOLATION property={} replay={}", self.id, path.display());
-        let first = fail.msg.lines().take(12).collect::<Vec<_>>().join("\n    ");
+        // (the full message is in the .msg.txt file next to the artefact)
+        let first = fail.msg.lines().take(12).map(|l| l.chars().take(700).collect::<String>()).collect::<Vec<_>>().join("\n    ");
         println!("  detail: {first}");
         self.violations.push((fail.msg.clone(), path));
     }
